@@ -1,13 +1,14 @@
 PROP = {
     "id": "C39",
     "theorem_modules": ["Verif.Properties.C39"],
-    "min_theorems": 5,
+    "min_theorems": 6,
     "required_theorems": [
         "Verif.Properties.C39.layout_token_invariant",
         "Verif.Properties.C39.flatten_token_invariant",
         "Verif.Properties.C39.postpass_tokens",
         "Verif.Properties.C39.collapse_comment_witness",
         "Verif.Properties.C39.postpass_comments_partial",
+        "Verif.Properties.C39.comments_once_partial",
     ],
     "harness_files": ["c38_gen.go", "stream_pp.go"],
     "streams": [
@@ -21,9 +22,12 @@ PROP = {
                   "modelled layout engine has the same non-white-space character sequence as the document's text pieces "
                   "(break decisions never change tokens); postpass_tokens - stripTrailingLineWhitespace and collapseBlankLines "
                   "(as functions on lines) only delete or empty white-space-only lines; postpass_comments_partial - text without "
-                  "white-space-only lines passes unchanged; collapse_comment_witness - the recorded defect on the port. NOT "
-                  "modelled: comment scanning / attachment / rendering (comments_once), rejoinStringInterpolations, import "
-                  "rewriting, idempotence - these are covered by the CC stream only. CC stream `fmt`: generated programs with "
+                  "white-space-only lines passes unchanged; collapse_comment_witness - the recorded defect on the port; "
+                  "comments_once_partial - on a model of trivia.Attach / attachLevel (the four loops, recursion into children, "
+                  "header / footer rules; modelled, NOT tied by a stream of its own) the slot assignments carry every comment "
+                  "group exactly once, in order, for all element forests and group lists. NOT modelled: comment scanning, the "
+                  "hoist post-passes of Attach, the Go maps' overwrite semantics, rendering of the slots, "
+                  "rejoinStringInterpolations, import rewriting, idempotence - these are covered by the CC stream only. CC stream `fmt`: generated programs with "
                   "comments inserted at white-space positions (line, doc, block, inline block comments), extra blank lines, "
                   "semicolons, random option combinations: formatter.Format must return an error or an output that parses to "
                   "the same AST modulo positions (imports as a multiset when sorted), contains every input comment exactly "
@@ -31,7 +35,8 @@ PROP = {
                   "compared byte for byte with the Go functions (verif hook) on generated inputs.",
     "level_note": "Trusted: Lean kernel; the model of turbolent/prettier (Flatten, fits, best, layout; strict instead of lazy, "
                   "text width in characters instead of bytes) - modelled, not tied by a stream of its own (it is exercised only "
-                  "through Format); the ports of the two post-passes (validated by stream fmt); harness and driver. bytes.TrimSpace "
+                  "through Format); the model Verif.Model.Front.Attach of trivia.attachLevel (modelled, not tied; the fmt stream's "
+                  "Go-only oracle checks every comment once per input); the ports of the two post-passes (validated by stream fmt); harness and driver. bytes.TrimSpace "
                   "is modelled for ASCII white space only. Idempotence is CC only.",
     "assumptions": ["indent string consists of white space (Options.Validate enforces \" \" or \"\\t\")",
                     "bytes.TrimSpace restricted to ASCII white space (generated inputs are ASCII there)"],
